@@ -55,3 +55,20 @@ package main
 //@   assert at call Save [C01] seq_is_next: $1.SeqId == old(t.lastID) + 1 && t.lastID == old(t.lastID) && $1.Topic == t.name
 //@   assert at call broadcastToSessions [C01] data_seq: t.lastID == old(t.lastID) + 1 && $1.Data != nil && $1.Data.SeqId == t.lastID
 //@   modifies *
+
+// ---------------------------------------------------------------------------------------------
+// C05: the notification path. Each component's delta is computed from that component's own old and new value,
+// and the proxy applies the want delta to want and the given delta to given.
+// ---------------------------------------------------------------------------------------------
+//@ func (t *Topic) notifySubChange(uid types.Uid, actor types.Uid, isChan bool, oldWant types.AccessMode, oldGiven types.AccessMode, newWant types.AccessMode, newGiven types.AccessMode, skip string)
+//@   requires [C05] t != nil
+//@   assert at call Delta#1 [C05] want_delta:  ($0 == oldWant && $1 == newWant) || ($0 == oldGiven && $1 == newGiven && !(newWant != types.ModeInvalid && newWant != types.ModeUnset && oldWant != types.ModeInvalid && oldWant != types.ModeUnset && oldWant != types.ModeNone))
+//@   assert at call Delta#2 [C05] given_delta: $0 == oldGiven && $1 == newGiven
+//@   modifies *
+
+//@ func (t *Topic) updateAcsFromPresMsg(pres *MsgServerPres)
+//@   requires [C05] t != nil && pres != nil && pres.Acs != nil
+//@   assert at call ApplyMutation#1 [C05] want_from_want:   $1 == pres.Acs.Want
+//@   assert at call ApplyMutation#2 [C05] given_from_given: $1 == pres.Acs.Given
+//@   ensures [C05] only_this_user: forall u types.Uid :: u != types.ParseUserId(pres.Src) ==> (u in t.perUser) == old(u in t.perUser) && t.perUser[u].modeWant == old(t.perUser[u].modeWant) && t.perUser[u].modeGiven == old(t.perUser[u].modeGiven)
+//@   modifies *
